@@ -688,6 +688,25 @@ Proof.
   cbn [panic_res s_nx s_st s_evs drops flat_map]. perm_count.
 Qed.
 
+Lemma offer_userlazy_own st nx v idx r D L :
+  1 <= nx -> sp_offer_userlazy c st nx v idx = Some r ->
+  Permutation (created c nx) (vis st ++ D ++ L) ->
+  Permutation (created c (s_nx r)) (vis (s_st r) ++ (D ++ drops (s_evs r)) ++ (L ++ [])).
+Proof.
+  intros Hnx Hr Hinv. unfold sp_offer_userlazy in Hr.
+  destruct (get_a v st) as [a|] eqn:Hg; [|discriminate]. cbv zeta in Hr.
+  destruct (put_value c a idx (tok c (nx + 1))) as [xs'|p] eqn:Ep; injection Hr as <-.
+  - cbn [ok_res s_nx s_st s_evs].
+    replace (nx + 2) with (nx + 1 + 1) by lia.
+    rewrite (created_succ c (nx + 1) ltac:(lia)), (created_succ c nx Hnx).
+    pose proof (put_value_perm c a idx (tok c (nx + 1)) xs' Ep) as Hp.
+    pose proof (vis_get_any st v) as Hv. rewrite Hg in Hv. cbn [slot_xs] in Hv.
+    pose proof (vis_set_any st v (Some (with_xs a xs'))) as H1. cbn [slot_xs with_xs a_xs] in H1.
+    unfold drop_ev. rewrite Hdg. cbn [drops flat_map app]. perm_count.
+  - cbn [panic_res s_nx s_st s_evs]. rewrite (created_succ c nx Hnx).
+    unfold drop_ev. rewrite Hdg. cbn [drops flat_map app]. perm_count.
+Qed.
+
 Theorem step_own st nx o r D L :
   1 <= nx -> spec_step c st nx o = Some r ->
   Permutation (created c nx) (vis st ++ D ++ L) ->
@@ -712,6 +731,7 @@ Proof.
       * assert (Hr' : sp_offer_lazy c st nx v None vid idx = Some r) by (destruct a; exact Hr).
         exact (offer_lazy_own st nx v None vid idx r D L Hnx Hr' Hinv).
       * destruct a; [|discriminate]. exact (offer_temp_own st nx v None vid k idx r D L Hnx Hr Hinv).
+      * destruct a; [|discriminate]. exact (offer_userlazy_own st nx v None r D L Hnx Hr Hinv).
   - (* OInsert *)
     cbn [leak_of]. destruct (fresh_src s).
     + pose proof (offer_own st nx v (Some idx) r D L Hnx Hr Hinv) as H. perm_count.
@@ -721,6 +741,7 @@ Proof.
       * assert (Hr' : sp_offer_lazy c st nx v (Some idx) vid idx0 = Some r) by (destruct a; exact Hr).
         exact (offer_lazy_own st nx v (Some idx) vid idx0 r D L Hnx Hr' Hinv).
       * destruct a; [|discriminate]. exact (offer_temp_own st nx v (Some idx) vid k idx0 r D L Hnx Hr Hinv).
+      * destruct a; [|discriminate]. exact (offer_userlazy_own st nx v (Some idx) r D L Hnx Hr Hinv).
   - (* OPop *)
     pose proof (take_own st nx v TPop 0 k r D L (fun _ => eq_refl) Hnx Hr Hinv) as H.
     cbn [leak_of]. exact H.
